@@ -340,6 +340,93 @@ theorem ite_eq_some_none {α : Type} (c : Prop) [Decidable c] (i : α) (o : Opti
     ((if c then o else none) = some i) ↔ (c ∧ o = some i) := by
   split <;> simp_all
 
+/-! ### releasing a user from every record of a registry -/
+
+theorem foldl_removeUsageT_frame {β : Type} (f : Reg → β) {r : RegId} {u : User}
+    (h : ∀ a k, f (removeUsageT a r k u) = f a) (l : List Name) (s : Reg) :
+    f (l.foldl (fun acc k => removeUsageT acc r k u) s) = f s := by
+  induction l generalizing s with
+  | nil => rfl
+  | cons k t ih => simp only [List.foldl_cons, ih, h]
+
+@[simp] theorem removeUserAll_nodes (s : Reg) (r : RegId) (u : User) : (removeUserAll s r u).nodes = s.nodes := by
+  unfold removeUserAll; exact foldl_removeUsageT_frame (fun x => x.nodes) (fun a k => removeUsageT_nodes a r k u) _ s
+@[simp] theorem removeUserAll_links (s : Reg) (r : RegId) (u : User) : (removeUserAll s r u).links = s.links := by
+  unfold removeUserAll; exact foldl_removeUsageT_frame (fun x => x.links) (fun a k => removeUsageT_links a r k u) _ s
+@[simp] theorem removeUserAll_patterns (s : Reg) (r : RegId) (u : User) : (removeUserAll s r u).patterns = s.patterns := by
+  unfold removeUserAll; exact foldl_removeUsageT_frame (fun x => x.patterns) (fun a k => removeUsageT_patterns a r k u) _ s
+@[simp] theorem removeUserAll_curves (s : Reg) (r : RegId) (u : User) : (removeUserAll s r u).curves = s.curves := by
+  unfold removeUserAll; exact foldl_removeUsageT_frame (fun x => x.curves) (fun a k => removeUsageT_curves a r k u) _ s
+@[simp] theorem removeUserAll_sources (s : Reg) (r : RegId) (u : User) : (removeUserAll s r u).sources = s.sources := by
+  unfold removeUserAll; exact foldl_removeUsageT_frame (fun x => x.sources) (fun a k => removeUsageT_sources a r k u) _ s
+@[simp] theorem removeUserAll_controls (s : Reg) (r : RegId) (u : User) : (removeUserAll s r u).controls = s.controls := by
+  unfold removeUserAll; exact foldl_removeUsageT_frame (fun x => x.controls) (fun a k => removeUsageT_controls a r k u) _ s
+@[simp] theorem removeUserAll_typed (s : Reg) (r : RegId) (u : User) : (removeUserAll s r u).typed = s.typed := by
+  unfold removeUserAll; exact foldl_removeUsageT_frame (fun x => x.typed) (fun a k => removeUsageT_typed a r k u) _ s
+@[simp] theorem removeUserAll_nextUid (s : Reg) (r : RegId) (u : User) : (removeUserAll s r u).nextUid = s.nextUid := by
+  unfold removeUserAll; exact foldl_removeUsageT_frame (fun x => x.nextUid) (fun a k => removeUsageT_nextUid a r k u) _ s
+
+theorem mem_foldl_removeUsageT (l : List Name) (s : Reg) (r r' : RegId) (k' : Name) (u x : User) :
+    x ∈ ulook ((l.foldl (fun acc k => removeUsageT acc r k u) s).usage r') k' ↔
+      x ∈ ulook (s.usage r') k' ∧ ¬(r' = r ∧ k' ∈ l ∧ x = u) := by
+  induction l generalizing s with
+  | nil => simp
+  | cons k t ih =>
+    simp only [List.foldl_cons, ih, mem_removeUsageT, List.mem_cons]
+    constructor
+    · rintro ⟨⟨h1, h2⟩, h3⟩
+      refine ⟨h1, ?_⟩
+      rintro ⟨a, b | b, c⟩
+      · exact h2 ⟨a, b, c⟩
+      · exact h3 ⟨a, b, c⟩
+    · rintro ⟨h1, h2⟩
+      exact ⟨⟨h1, fun ⟨a, b, c⟩ => h2 ⟨a, Or.inl b, c⟩⟩, fun ⟨a, b, c⟩ => h2 ⟨a, Or.inr b, c⟩⟩
+
+theorem mem_removeUserAll (s : Reg) (r r' : RegId) (k' : Name) (u x : User) :
+    x ∈ ulook ((removeUserAll s r u).usage r') k' ↔ x ∈ ulook (s.usage r') k' ∧ ¬(r' = r ∧ x = u) := by
+  unfold removeUserAll
+  rw [mem_foldl_removeUsageT]
+  constructor
+  · rintro ⟨h1, h2⟩
+    refine ⟨h1, ?_⟩
+    rintro ⟨a, c⟩
+    subst a
+    apply h2
+    refine ⟨rfl, ?_, c⟩
+    by_contra hk
+    rw [AL.not_mem_keys] at hk
+    simp [ulook, hk] at h1
+  · rintro ⟨h1, h2⟩
+    exact ⟨h1, fun ⟨a, _, c⟩ => h2 ⟨a, c⟩⟩
+
+/-- release a user from every record, or nothing -/
+def removeUserAllO (s : Reg) (r : RegId) (u : Option User) : Reg :=
+  match u with
+  | none => s
+  | some u => removeUserAll s r u
+
+@[simp] theorem removeUserAllO_nodes (s : Reg) (r : RegId) (u : Option User) : (removeUserAllO s r u).nodes = s.nodes := by cases u <;> simp [removeUserAllO]
+@[simp] theorem removeUserAllO_links (s : Reg) (r : RegId) (u : Option User) : (removeUserAllO s r u).links = s.links := by cases u <;> simp [removeUserAllO]
+@[simp] theorem removeUserAllO_patterns (s : Reg) (r : RegId) (u : Option User) : (removeUserAllO s r u).patterns = s.patterns := by cases u <;> simp [removeUserAllO]
+@[simp] theorem removeUserAllO_curves (s : Reg) (r : RegId) (u : Option User) : (removeUserAllO s r u).curves = s.curves := by cases u <;> simp [removeUserAllO]
+@[simp] theorem removeUserAllO_sources (s : Reg) (r : RegId) (u : Option User) : (removeUserAllO s r u).sources = s.sources := by cases u <;> simp [removeUserAllO]
+@[simp] theorem removeUserAllO_controls (s : Reg) (r : RegId) (u : Option User) : (removeUserAllO s r u).controls = s.controls := by cases u <;> simp [removeUserAllO]
+@[simp] theorem removeUserAllO_typed (s : Reg) (r : RegId) (u : Option User) : (removeUserAllO s r u).typed = s.typed := by cases u <;> simp [removeUserAllO]
+@[simp] theorem removeUserAllO_nextUid (s : Reg) (r : RegId) (u : Option User) : (removeUserAllO s r u).nextUid = s.nextUid := by cases u <;> simp [removeUserAllO]
+
+theorem mem_removeUserAllO (s : Reg) (r r' : RegId) (k' : Name) (u : Option User) (x : User) :
+    x ∈ ulook ((removeUserAllO s r u).usage r') k' ↔ x ∈ ulook (s.usage r') k' ∧ ¬(r' = r ∧ u = some x) := by
+  cases u with
+  | none => simp [removeUserAllO]
+  | some u =>
+    simp only [removeUserAllO, mem_removeUserAll, Option.some.injEq]
+    constructor <;> rintro ⟨h, a⟩ <;> refine ⟨h, ?_⟩ <;> rintro ⟨b, c⟩ <;> exact a ⟨b, by simp_all⟩
+
+@[simp] theorem repaired_demandUsageByName : repaired.demandUsageByName = true := rfl
+@[simp] theorem repaired_delNodeSweeps : repaired.delNodeSweeps = true := rfl
+@[simp] theorem repaired_fireKeepsShared : repaired.fireKeepsShared = true := rfl
+@[simp] theorem demandReg_repaired (obj : Bool) : demandReg repaired obj = .pattern := by cases obj <;> rfl
+
 /-! ### `set_curve_type` of the repaired code -/
 @[simp] theorem setCurveTypeR_nodes (s : Reg) (k : Name) (t : CurveType) : (setCurveType repaired s k t).nodes = s.nodes := by rw [setCurveType_repaired]; split <;> rfl
 @[simp] theorem setCurveTypeR_links (s : Reg) (k : Name) (t : CurveType) : (setCurveType repaired s k t).links = s.links := by rw [setCurveType_repaired]; split <;> rfl
